@@ -4,12 +4,12 @@ go 1.21
 
 require (
 	github.com/Trendyol/go-dcp v0.0.0
+	github.com/asaskevich/EventBus v0.0.0-20200907212545-49d423059eef
 	github.com/sirupsen/logrus v1.9.3
 )
 
 require (
 	github.com/andybalholm/brotli v1.1.1 // indirect
-	github.com/asaskevich/EventBus v0.0.0-20200907212545-49d423059eef // indirect
 	github.com/bytedance/sonic v1.12.8 // indirect
 	github.com/bytedance/sonic/loader v0.2.2 // indirect
 	github.com/cloudwego/base64x v0.1.5 // indirect
